@@ -230,7 +230,8 @@ def main(argv=None):
     for lm in P.get("lemmas", []):
         tasks.append(dict(kind="lemma", name=lm, prop=args.prop, timeout_ms=timeout_ms, record=args.record_baseline))
     for b in P.get("bounded", []):
-        tasks.append(dict(kind="bounded", module=b["module"], name=b["fn"], prop=args.prop, tier=args.tier, seed=seed,
+        extra = {k: v for k, v in b.items() if k not in ("module", "fn", "label")}
+        tasks.append(dict(extra, kind="bounded", module=b["module"], name=b["fn"], prop=args.prop, tier=args.tier, seed=seed,
                           timeout_ms=timeout_ms, label=b.get("label", b["fn"])))
     _setup()       # parse the repository and load the contracts once; workers inherit them by fork
     ctx = mp.get_context("fork")
